@@ -23,15 +23,16 @@ Inserting == {"blank", "comment"}
 Whole     == {"reindent", "crlf", "bom", "append", "rename"}
 Kinds     == Inserting \cup {"trailing"} \cup Whole
 \* abstract positions: fractions of the file (0 = before the first line, 3 = after the last line);
-\* 4 = "sweep": a family of single edits, one per line boundary of the file (the harness instantiates every one)
+\* 4 = "sweep": a family of single edits, one per line boundary of the file - for `trailing`, one per line - (the
+\* harness instantiates every one)
 Pos == 0..4
 
 VARIABLES edits, done
 vars == <<edits, done>>
 Init == edits = <<>> /\ done = FALSE
 Add(k, p) == /\ ~done /\ Len(edits) < MaxEdits
-             /\ (k \in Whole => p = 0) /\ (k = "trailing" => p \in 1..2)
-             /\ (p = 4 => k \in Inserting /\ edits = <<>>)
+             /\ (k \in Whole => p = 0) /\ (k = "trailing" => p \in {1, 2, 4})
+             /\ (p = 4 => k \in Inserting \cup {"trailing"} /\ edits = <<>>)
              /\ (edits # <<>> => edits[1].pos # 4)
              /\ (k \in Whole => \A i \in 1..Len(edits) : edits[i].kind # k)
              /\ edits' = Append(edits, [kind |-> k, pos |-> p]) /\ UNCHANGED done
